@@ -94,6 +94,7 @@ type IPCPStateMachine struct {
 	config     IPCPConfig
 	negotiated IPCPNegotiatedOptions
 	sessionID  string // For IP pool allocation
+	poolIP     bool   // config.PeerIP was allocated from config.IPPool (not configured statically)
 
 	// Counters
 	restartCount   int
@@ -191,6 +192,7 @@ func (ipcp *IPCPStateMachine) Up() {
 	if ipcp.config.PeerIP == nil && ipcp.config.IPPool != nil {
 		ipcp.config.PeerIP = ipcp.config.IPPool.Allocate(ipcp.sessionID)
 		ipcp.negotiated.PeerIP = ipcp.config.PeerIP
+		ipcp.poolIP = ipcp.config.PeerIP != nil
 		ipcp.logger.Debug("Allocated IP for peer",
 			zap.String("ip", ipcp.config.PeerIP.String()),
 		)
@@ -216,6 +218,13 @@ func (ipcp *IPCPStateMachine) Down() {
 	// Release allocated IP
 	if ipcp.config.IPPool != nil && ipcp.negotiated.PeerIP != nil {
 		ipcp.config.IPPool.Release(ipcp.sessionID)
+	}
+	if ipcp.poolIP {
+		// The address went back to the pool and may be handed to another session:
+		// it is no longer ours to acknowledge or suggest. Up allocates again.
+		ipcp.config.PeerIP = nil
+		ipcp.negotiated.PeerIP = nil
+		ipcp.poolIP = false
 	}
 
 	switch ipcp.state {
